@@ -1,3 +1,37 @@
-From CRS Require Import Lib.Bytes Model.Broker.
-Theorem c02_placeholder : cin init = None.
-Proof. reflexivity. Qed.
+(** C02 — operator input reaches the attached shell intact, in order and promptly. *)
+From CRS Require Import Lib.Bytes Model.Broker Proofs.BrokerProofs Props.C01.
+Open Scope N_scope.
+
+(** Whatever the writer does (any kind, any failure point), the lines the
+    input proxy writes — each with exactly one newline appended, nothing else
+    changed — followed by the lines still queued are exactly the queued lines,
+    in order: gap-free, duplicate-free, unmodified.  Lines not yet written stay
+    queued, in order, for the next shell. *)
+Theorem c02_gap_free_in_order : forall fuel s x,
+  flat_map w_data (o_w (snd (deliver fuel s x))) ++ map nl (queue (fst (deliver fuel s x))) = map nl (queue s).
+Proof. exact deliver_order. Qed.
+
+(** Only the last written line can be undelivered, and only because its own
+    write or flush failed, which ends the shell with an error. *)
+Theorem c02_only_own_failure_loses_a_line : forall fuel s x, exists last,
+  flat_map w_data (o_w (snd (deliver fuel s x))) = flat_map lio (o_log (snd (deliver fuel s x))) ++ last /\
+  (length last <= 1)%nat /\
+  (last <> [] -> In (Log (LDisc true) (st_id x)) (o_log (snd (deliver fuel s x)))).
+Proof. exact deliver_logged. Qed.
+
+(** Lines go only to the stream holding the input slot. *)
+Theorem c02_only_to_attached_shell : forall s o, Inv s -> Tab s ->
+  forall w, In w (o_w (snd (step s o))) -> exists sd, cin (fst (step s o)) = Some (wid w, sd).
+Proof. exact writes_go_to_cin. Qed.
+
+(** Non-vacuity + promptness in the model: every write is followed by the flush
+    its writer kind dictates before the next line; lines entered with no shell
+    are held; the failing line is the only one lost. *)
+Example c02_example :
+  let d := {| sd_dir := DIn; sd_key := KUni [97]; sd_addr := 1; sd_wk := WBoth; sd_wfail := None; sd_ffail := Some 2 |} in
+  let ops := [OLine [104]; OAdmit 1 d; OLine [105]; OLine [106]; OLine [107]] in
+  map o_w (snd (run ops)) =
+    [[]; [WWrite 1 [104; 10]; WFlush 1 true]; [WWrite 1 [105; 10]; WFlush 1 true];
+     [WWrite 1 [106; 10]; WFlushFail 1 true]; []] /\
+  queue (fst (run ops)) = [[107]].
+Proof. vm_compute. split; reflexivity. Qed.
